@@ -34,7 +34,7 @@ func H_C14_status_tm() {
 	// inside time.Time.Add is out of reach of every installed solver); state and block time are symbolic
 	periods := []int64{1, 999_999_999, 1_000_000_000, 3_600_000_000_001, 1_209_600_000_000_000, 1<<62 + 5}
 	period := periods[vp.Choice("trustingPeriod", len(periods))]
-	cs := tmtypes.ClientState{ChainId: "chain-1", TrustingPeriod: time.Duration(period), LatestHeight: latest,
+	cs := tmtypes.ClientState{ChainId: "chain-1", TrustingPeriod: time.Duration(period), UnbondingPeriod: time.Duration(period) + time.Hour, MaxClockDrift: 10 * time.Second, LatestHeight: latest,
 		ProofSpecs: []*ics23.ProofSpec{ics23.TendermintSpec}, MerklePrefix: commitmenttypes.NewMerklePrefix([]byte("tibc"))}
 	tsec := vp.Int64("state.sec")
 	vp.Assume(tsec > 0 && tsec < 4_000_000_000)
